@@ -81,10 +81,13 @@ def inter_twine(a, cond):
     ccode = COND_MAP[cond.upper()]
     mnemonic = stx[0] + cond
     stx[0] = mnemonic
+    # When the condition fails, rd keeps its old value: rd is an input too.
+    rd = Operand("rd", ArmRegister, read=True, write=True)
+    stx = [rd if e is a.rd else e for e in stx]
     syntax = Syntax(stx)
-    patterns = dict(a.patterns)
+    patterns = {k: (rd if v is a.rd else v) for k, v in a.patterns.items()}
     patterns["cond"] = ccode
-    members = {"syntax": syntax, "patterns": patterns}
+    members = {"syntax": syntax, "patterns": patterns, "rd": rd}
     return type(mnemonic, (a,), members)
 
 
